@@ -21,7 +21,7 @@ Others == { <<"none">>, <<"bool", TRUE>>, <<"bool", FALSE>>,
             <<"complex", <<63,240,0,0,0,0,0,0, 192,0,0,0,0,0,0,0>>>>,
             <<"bytes", <<>>>>, <<"bytes", <<81>>>>,
             <<"str", <<>>>>, <<"str", <<97>>>>, <<"str", <<233>>>>, <<"str", <<1114111>>>>,
-            <<"str", <<8364, 65>>>>, <<"str", <<55296>>>>, <<"str", <<97, 56448>>>>,    \* lone surrogates (U+D800, U+DC80)
+            <<"str", <<8364, 65>>>>, <<"str", <<65279, 97>>>>, <<"str", <<55296>>>>, <<"str", <<97, 56448>>>>,    \* lone surrogates (U+D800, U+DC80)
             <<"bad">> }
 Leaves == Ints \cup Floats \cup Others
 
